@@ -5,6 +5,7 @@ import (
 	"encoding/json"
 	"fmt"
 	"math"
+	"math/big"
 	"sort"
 	"strconv"
 	"strings"
@@ -756,6 +757,45 @@ func ValidateTrace(body []byte, spans []Span) []Finding {
 		for _, t := range s.Tags {
 			if v, ok := am[JSONDecoded(t[0])]; !ok || v != JSONDecoded(t[1]) {
 				out = append(out, Finding{"string-mismatch", fmt.Sprintf("span %s: attribute %q is %q (present %v), stored %q (%s)", s.SpanID, clipS(t[0], 40), clipS(v, 40), ok, clipS(t[1], 40), StrClass(t[0]+t[1]))})
+			}
+		}
+		if s.PayloadType == 2 {
+			for _, n := range s.Nums {
+				v, ok := am[n.Key]
+				if !ok {
+					// rendered as a typed value instead of a string?
+					for _, a := range attrs {
+						ao, _ := obj(a)
+						if k, _ := ao["key"].(string); k == n.Key {
+							vo, _ := obj(ao["value"])
+							for _, f := range []string{"intValue", "doubleValue"} {
+								if x, has := vo[f]; has {
+									v, ok = fmt.Sprint(x), true
+								}
+							}
+						}
+					}
+				}
+				bf, _, err := big.ParseFloat(strings.TrimSpace(v), 10, 300, big.ToNearestEven)
+				want := new(big.Float).SetPrec(300)
+				if n.IsInt {
+					want.SetInt64(n.Int)
+				} else {
+					want.SetFloat64(n.Dbl)
+				}
+				same := err == nil && bf.Cmp(want) == 0
+				if !n.IsInt {
+					// a double is rendered without loss when the text reads back as the same double
+					pf, perr := strconv.ParseFloat(strings.TrimSpace(v), 64)
+					same = perr == nil && (pf == n.Dbl || pf != pf && n.Dbl != n.Dbl)
+				}
+				if !ok || !same {
+					what := fmt.Sprintf("double %v", n.Dbl)
+					if n.IsInt {
+						what = fmt.Sprintf("int64 %d", n.Int)
+					}
+					out = append(out, Finding{"number-loss", fmt.Sprintf("span %s: numeric attribute %q is rendered %q (present %v), stored %s", s.SpanID, n.Key, clipS(v, 40), ok, what)})
+				}
 			}
 		}
 	}
